@@ -159,6 +159,12 @@ func solve(o *Obligation, cfg *SolverCfg) {
 		cancel()
 	}
 	if res != "sat" && res != "unsat" && o.Expect == "unsat" && o.Kind != "cover" {
+		// (relevance slicing first: cheap when it works, see stage 5)
+		if name, ok := sliceDecide(text, file, cfg.Timeout); ok {
+			res, out, solver = "unsat", "", name
+		}
+	}
+	if res != "sat" && res != "unsat" && o.Expect == "unsat" && o.Kind != "cover" {
 		// stage 3: a conjunctive goal is decided conjunct by conjunct. reach && !(A && B) is
 		// unsatisfiable iff reach && !A and reach && !B both are; a model of either part is a
 		// model of the whole.
@@ -203,6 +209,15 @@ func solve(o *Obligation, cfg *SolverCfg) {
 			os.Remove(f2)
 		}
 	}
+	if res != "sat" && res != "unsat" && o.Expect == "unsat" && o.Kind != "cover" {
+		// stage 5: relevance slicing. Assertions are dropped unless they share a data symbol
+		// with the goal within a few rounds (definitions of named terms are pulled in on
+		// demand). Dropping assumptions only weakens the query, so "unsat" carries over to the
+		// full query; any other answer of a sliced query is ignored.
+		if name, ok := sliceDecide(text, file, cfg.Timeout); ok {
+			res, out, solver = "unsat", "", name
+		}
+	}
 	o.Seconds = time.Since(start).Seconds()
 	o.Result, o.Solver, o.Output = res, solver, out
 	if res == "sat" && o.Expect == "unsat" {
@@ -221,6 +236,41 @@ func solve(o *Obligation, cfg *SolverCfg) {
 		b, _ := json.Marshal(cacheEntry{res, solver, o.Seconds})
 		os.WriteFile(cfile, b, 0o644)
 	}
+}
+
+// sliceDecide tries relevance-sliced versions of a query (see sliceQuery); only "unsat" counts.
+func sliceDecide(text, file string, to time.Duration) (string, bool) {
+	for _, depth := range []int{1, 2, 3} {
+		st := sliceQuery(text, depth)
+		if st == "" {
+			return "", false
+		}
+		f5 := strings.TrimSuffix(file, ".smt2") + fmt.Sprintf(".slice%d.smt2", depth)
+		os.WriteFile(f5, []byte(st), 0o644)
+		ctx, cancel := context.WithCancel(context.Background())
+		type r struct{ res, name string }
+		ch := make(chan r, len(solvers))
+		for _, sd := range solvers {
+			go func(sd solverDef) {
+				a, _ := runOne(ctx, sd, f5, to)
+				ch <- r{a, sd.name}
+			}(sd)
+		}
+		name := ""
+		for i := 0; i < len(solvers); i++ {
+			x := <-ch
+			if x.res == "unsat" {
+				name = fmt.Sprintf("slice(%d):%s", depth, x.name)
+				break
+			}
+		}
+		cancel()
+		os.Remove(f5)
+		if name != "" {
+			return name, true
+		}
+	}
+	return "", false
 }
 
 // splitGoal returns reach and the conjuncts of cond for a goal "(and reach (not cond))".
@@ -340,7 +390,12 @@ func solveSplit(o *Obligation, cfg *SolverCfg, file string) (res, out, solver st
 	used := map[string]bool{}
 	for i, p := range parts {
 		pf := fmt.Sprintf("%s.part%d.smt2", strings.TrimSuffix(file, ".smt2"), i)
-		os.WriteFile(pf, []byte(prefix.String()+"(assert (and "+reach+" (not "+p+")))\n(check-sat)\n"), 0o644)
+		// conjuncts already decided may be used for the later ones: A && (A => B) gives A && B
+		var earlier strings.Builder
+		for _, q := range parts[:i] {
+			earlier.WriteString("(assert (=> " + reach + " " + q + "))\n")
+		}
+		os.WriteFile(pf, []byte(prefix.String()+earlier.String()+"(assert (and "+reach+" (not "+p+")))\n(check-sat)\n"), 0o644)
 		r, ro, name := "timeout", "", "none"
 		st1 := 2 * time.Second
 		if cfg.Timeout < st1 {
@@ -366,6 +421,13 @@ func solveSplit(o *Obligation, cfg *SolverCfg, file string) (res, out, solver st
 				}
 			}
 			cancel()
+		}
+		if r != "sat" && r != "unsat" {
+			if b, err := os.ReadFile(pf); err == nil {
+				if nm, ok := sliceDecide(string(b), pf, cfg.Timeout); ok {
+					r, name = "unsat", nm
+				}
+			}
 		}
 		switch r {
 		case "unsat":
